@@ -129,6 +129,106 @@ fn handle(req: &Value) -> Value {
             }
             json!({"last_ok": last_ok, "first_err_at": first_err, "first_index_mismatch_at": mismatch})
         }
+        "order_trace" => {
+            // scripted host: answers every pending order with its own id (as a number) on the next round
+            use tsrun::{InterpreterConfig, OrderResponse, RuntimeValue};
+            let config = InterpreterConfig { internal_modules: vec![tsrun::create_eval_internal_module()], ..Default::default() };
+            let mut interp = Interpreter::with_config(config);
+            let src = req["src"].as_str().unwrap_or("");
+            let mut trace: Vec<Value> = Vec::new();
+            let mut issued: Vec<u64> = Vec::new();
+            let mut answered: Vec<u64> = Vec::new();
+            let mut cancelled_seen: Vec<u64> = Vec::new();
+            let mut violation: Option<String> = None;
+            let mut first = interp.prepare(src, Some(ModulePath::new("/main.ts")));
+            let mut idle_suspends = 0u32;
+            let mut steps = 0u64;
+            let mut final_value = Value::Null;
+            'outer: loop {
+                let r = match first { Ok(StepResult::Continue) | Err(_) if false => unreachable!(), _ => std::mem::replace(&mut first, Ok(StepResult::Continue)) };
+                let r = match r { Ok(StepResult::Continue) => interp.step(), other => other };
+                steps += 1;
+                if steps > 5_000_000 { violation = Some("step budget exceeded".into()); break; }
+                match r {
+                    Ok(StepResult::Continue) => continue,
+                    Ok(StepResult::Complete(v)) => {
+                        let unanswered: Vec<&u64> = issued.iter().filter(|i| !answered.contains(i) && !cancelled_seen.contains(i)).collect();
+                        if !unanswered.is_empty() { violation = Some(format!("Complete with unanswered orders {:?}", unanswered)); }
+                        final_value = js_to_json(v.value());
+                        trace.push(json!("Complete"));
+                        break;
+                    }
+                    Ok(StepResult::Suspended { pending, cancelled }) => {
+                        let ids: Vec<u64> = pending.iter().map(|o| o.id.0).collect();
+                        let cids: Vec<u64> = cancelled.iter().map(|o| o.0).collect();
+                        trace.push(json!({"suspended": {"pending": ids, "cancelled": cids}}));
+                        for i in &ids {
+                            if issued.contains(i) { violation = Some(format!("order {} handed to the host twice", i)); break 'outer; }
+                            issued.push(*i);
+                        }
+                        for c in &cids {
+                            if !issued.contains(c) { violation = Some(format!("cancellation of an order {} that was never handed out", c)); break 'outer; }
+                            if cancelled_seen.contains(c) { violation = Some(format!("order {} cancelled twice", c)); break 'outer; }
+                            cancelled_seen.push(*c);
+                        }
+                        let todo: Vec<u64> = issued.iter().cloned().filter(|i| !answered.contains(i) && !cancelled_seen.contains(i)).collect();
+                        if todo.is_empty() {
+                            idle_suspends += 1;
+                            if idle_suspends > 3 { violation = Some("Suspended although the host has nothing left to answer".into()); break; }
+                        } else {
+                            idle_suspends = 0;
+                            let responses: Vec<OrderResponse> = todo.iter().map(|i| OrderResponse { id: tsrun::OrderId(*i), result: Ok(RuntimeValue::unguarded(JsValue::Number(*i as f64))) }).collect();
+                            answered.extend(todo.iter());
+                            interp.fulfill_orders(responses);
+                        }
+                    }
+                    Ok(StepResult::NeedImports(_)) => { trace.push(json!("NeedImports")); break; }
+                    Ok(StepResult::Done) => { trace.push(json!("Done")); break; }
+                    Err(e) => { trace.push(json!({"error": format!("{}", e)})); break; }
+                }
+            }
+            if violation.is_none() {
+                if let Some(exp) = req["expect_cancelled"].as_array() {
+                    let mut want: Vec<u64> = exp.iter().filter_map(|v| v.as_u64()).collect();
+                    let mut got = cancelled_seen.clone();
+                    want.sort();
+                    got.sort();
+                    if want != got { violation = Some(format!("cancellations reported to the host {:?}, program cancelled {:?}", got, want)); }
+                }
+                if let Some(exp) = req["expect_issued"].as_u64() {
+                    if issued.len() as u64 != exp { violation = Some(format!("{} orders handed to the host, program issued {}", issued.len(), exp)); }
+                }
+            }
+            json!({"trace": trace, "issued": issued, "answered": answered, "cancelled": cancelled_seen, "value": final_value, "protocol_violation": violation})
+        }
+        "eval_vs_step" => {
+            // the two public ways of running one program: Interpreter::eval (vm.run) and prepare + step
+            use tsrun::InterpreterConfig;
+            let src = req["src"].as_str().unwrap_or("");
+            let describe = |r: Result<StepResult, tsrun::JsError>| -> Value {
+                match r {
+                    Ok(StepResult::Continue) => json!("Continue"),
+                    Ok(StepResult::Complete(v)) => json!({"complete": js_to_json(v.value())}),
+                    Ok(StepResult::NeedImports(l)) => json!({"need_imports": l.len()}),
+                    Ok(StepResult::Suspended { pending, cancelled }) => json!({"suspended": {"pending": pending.iter().map(|o| o.id.0).collect::<Vec<u64>>(), "cancelled": cancelled.iter().map(|o| o.0).collect::<Vec<u64>>()}}),
+                    Ok(StepResult::Done) => json!("Done"),
+                    Err(e) => json!({"error": format!("{}", e)}),
+                }
+            };
+            let mk = || Interpreter::with_config(InterpreterConfig { internal_modules: vec![tsrun::create_eval_internal_module()], ..Default::default() });
+            let mut a = mk();
+            let ra = describe(a.eval(src, Some(ModulePath::new("/main.ts"))));
+            let mut b = mk();
+            let mut rb = b.prepare(src, Some(ModulePath::new("/main.ts")));
+            let mut n = 0u64;
+            while let Ok(StepResult::Continue) = rb {
+                rb = b.step();
+                n += 1;
+                if n > 5_000_000 { break; }
+            }
+            let rb = describe(rb);
+            json!({"eval": ra, "step": rb, "differ": ra != rb})
+        }
         "number_to_string" => {
             let bits = u64::from_str_radix(req["bits"].as_str().unwrap_or("0"), 16).unwrap_or(0);
             json!({"out": tsrun::value::number_to_string(f64::from_bits(bits)).to_string()})
